@@ -138,6 +138,12 @@ def _run(case, out, rig, server, cfg, variant, phone):
             rig.connect_outcomes.append("refused")
             rig.post("connect")
             rig.run()
+        elif cut == "closed_at_once":
+            # the connection is closed by the peer the moment it is up, and the application asks for the next one straight away:
+            # the login thread of the dead attempt may not even have started when the next attempt begins
+            rig.connect_outcomes.append("ok_then_close")
+            rig.post("connect")
+            rig.post("loop")      # (the main thread delivers the deferred announcement once the connection is over, as always)
         elif cut == "during":
             rig.post("connect")
             rig.run()                    # client hello is out, the handshake worker waits for the server
@@ -467,7 +473,7 @@ def case_strategy():
             "coalesced": draw(st.integers(0, 3)),
             "after_server": draw(st.integers(0, 4)),
             "after_client": draw(st.integers(0, 4)),
-            "prefix": draw(st.lists(st.sampled_from(["before", "during", "during_partial", "after", "after_inside_delivery", "rejected_trailing"]), min_size=0, max_size=2)),
+            "prefix": draw(st.lists(st.sampled_from(["before", "during", "during_partial", "after", "after_inside_delivery", "rejected_trailing", "closed_at_once", "closed_at_once"]), min_size=0, max_size=2)),
             "corrupt": draw(st.sampled_from([False] * 12 + [True, True] + DAMAGE)),
             "upper_raises": draw(st.sampled_from([0, 0, 0, 1, 1, 2, 3])),
             "eager": draw(st.booleans()),
@@ -550,6 +556,20 @@ def _enum_wire_sweep(limit):
     return factory
 
 
+def _enum_closed_at_once_sweep(limit):
+    """an attempt whose connection the peer closes the moment it is up, followed straight away by the login under test: one
+    preemption at every yield point - in particular the first attempt's login thread gets to run at every later moment"""
+    def factory():
+        for variant in ("XX", "IK"):
+            base = {"sub": "login", "variant": variant, "phone": "4915112345", "passive": False, "pushname": None, "edge": None,
+                    "chunks": [], "coalesced": 0, "after_server": 1, "after_client": 1, "prefix": ["closed_at_once"], "corrupt": False, "choices": []}
+            yield dict(base)
+            for k in range(limit):
+                for sel in (0, 1, 2, 3):
+                    yield dict(base, preempt=[[k, sel]])
+    return factory
+
+
 def _enum_preemption_sweep(limit):
     """context bound 1, complete: one preemption at every yield point of the login (either other ready task), with server frames
     arriving in the same read as the handshake reply"""
@@ -569,7 +589,8 @@ def plan(tier):
         "shards": 16,
         "enumerations": [("basic_matrix", _enum_basic), ("single_preemption_sweep", _enum_preemption_sweep(260 if quick else 700)),
                          ("eager_server_sweep", _enum_eager_sweep(260 if quick else 700)),
-                         ("wire_task_sweep", _enum_wire_sweep(260 if quick else 700))],
+                         ("wire_task_sweep", _enum_wire_sweep(260 if quick else 700)),
+                         ("closed_at_once_sweep", _enum_closed_at_once_sweep(200 if quick else 600))],
         "strategies": [("logins", case_strategy(), 60 if quick else 4000)],
         "shrink": "ddmin",
         "budget_s": 150 if quick else 1500,
